@@ -123,6 +123,7 @@ class Interp:
         self.pos = 0
         self.new_alternatives = []  # decision prefixes to explore later
         self.pc = []  # path condition (list of z3 Bool)
+        self.len_vars = {}  # sexpr of Length(t) -> its integer abstraction variable
         self.fact_index = set()  # sexprs of assumed facts (a condition that literally is a fact needs no solver)
         self.arith_facts = []  # facts over integer/boolean constants only (no sequences, strings or function symbols)
         self.pc_index = {}  # sexpr of decided condition -> bool
@@ -185,8 +186,9 @@ class Interp:
             return
         self.facts.append(fact)
         self.fact_index.add(fact.sexpr())
-        if is_pure_arith(fact):
-            self.arith_facts.append(fact)
+        rf = self.relax(fact)
+        if rf is not None and is_pure_arith(rf):
+            self.arith_facts.append(rf)
         self._note_bools(fact)
 
     def _note_bools(self, e, depth=0):
@@ -213,9 +215,45 @@ class Interp:
 
     FEAS_TIMEOUT_MS = 1500
 
+    def relax(self, e):
+        """Length(t) -> a persistent non-negative integer variable per term t (lengths-as-integers abstraction); the result is
+        an over-approximation of e (it only forgets how lengths relate to contents). None if the walk fails."""
+        cache = {}
+        keep = []
+
+        def walk(x):
+            k = x.get_id()
+            if k in cache:
+                return cache[k]
+            if z3.is_app(x):
+                if x.decl().kind() == z3.Z3_OP_SEQ_LENGTH:
+                    key = x.sexpr()
+                    v = self.len_vars.get(key)
+                    if v is None:
+                        v = z3.Int(f"len!{len(self.len_vars)}")
+                        self.len_vars[key] = v
+                        self.arith_facts.append(v >= 0)
+                    r = v
+                else:
+                    ch = [walk(c) for c in x.children()]
+                    r = x.decl()(*ch) if ch else x
+            else:
+                r = x
+            cache[k] = r
+            keep.append(x)
+            return r
+        try:
+            return walk(e)
+        except Exception:
+            return None
+
     def check_sat(self, extra=None, timeout_ms=None):
         """'sat' | 'unsat' | 'unknown' for facts ∧ pc ∧ extra (short budget: unknown counts as feasible)."""
         import time
+        if extra is not None and not is_pure_arith(extra):
+            rx = self.relax(extra)
+            if rx is not None and is_pure_arith(rx):
+                extra = rx  # a condition over integers and sequence LENGTHS only: decided in the lengths-as-integers abstraction
         if extra is not None and is_pure_arith(extra):
             # pure integer/boolean condition: decided against the pure-arithmetic part of the hypotheses only. `unsat` there
             # is `unsat` of the whole (sound); `sat` there is treated as feasible (over-approximation of path feasibility).
@@ -224,8 +262,9 @@ class Interp:
             for f in self.arith_facts:
                 s.add(f)
             for f in self.pc:
-                if is_pure_arith(f):
-                    s.add(f)
+                rf = self.relax(f)
+                if rf is not None and is_pure_arith(rf):
+                    s.add(rf)
             s.add(extra)
             t = time.time()
             r = s.check()
